@@ -174,6 +174,9 @@ def find_guards(eng, fn):
                     if side is None or other is None or o not in (">", ">="):
                         continue
                     labs = {x for x in ft.labels(side, b.id) if is_src(x)}
+                    if not labs:
+                        # a count kept in an object (`point_cloud()->num_points()` set from the header earlier)
+                        labs = {x for x in ft.labels(side, b.id) if x[0] == "field"}
                     if not labs or REM not in ft.labels(other, b.id):
                         continue
                     out.append((b, not oc, labs, scale_of(ft, side, other), b.condsrc))
@@ -239,8 +242,8 @@ def justify(eng, fn, guard, mc):
                     continue          # undetermined (indirect consumption): neither justifies nor refutes
                 uses.append(("count passed to %s at %s (%s)" % (
                     strip_targs(n.get("fn") or ""), fn.site(n.get("loc", "")), how), c))
-    if k <= 1:
-        return True, "scale %g <= 1 byte per item (a byte size, or at least one byte per item)" % k
+    if k == 1:
+        return True, "scale 1: a byte size, or at least one byte per item"
     if not uses:
         return True, "no item loop or consuming callee uses the count after the guard"
     bad = [(u, c) for u, c in uses if c < k]
